@@ -40,7 +40,7 @@ impl Client {
 
         // Step 1: Create a stream to the magic address
         let magic_destination = (UDP_OVER_TCP_MAGIC_ADDR.to_string(), 0);
-        let (stream, _session) = self.create_proxy_stream(magic_destination).await?;
+        let (stream, session) = self.create_proxy_stream(magic_destination).await?;
 
         tracing::debug!(
             "[UDP Client] Created stream {} for UDP over TCP",
@@ -78,9 +78,14 @@ impl Client {
         // Step 4: Start bidirectional forwarding
         let stream_clone = stream.clone();
 
+        let session_pool = self.session_pool();
         tokio::spawn(async move {
             if let Err(e) = udp_proxy_loop(local_udp, stream_clone).await {
                 tracing::error!("[UDP Client] Proxy loop error: {}", e);
+            }
+            // The association has ended: the session can serve the next request
+            if !session.is_closed() {
+                session_pool.add_idle_session(session).await;
             }
         });
 
